@@ -109,7 +109,7 @@ func micetypestate(e *Env, why string) {
 	e.gatesBefore("TYPESTATE", rn, noCfg, "validate(last)", func(in ssa.Instruction) bool {
 		c, ok := in.(*ssa.Call)
 		return ok && prov.CalleeName(&c.Call) == "mice.validateRecord" && prov.Of(c.Call.Args[0]) == tShortRec
-	}, gate.Cmp("R.short", "call:io.ReadFull(param:d.r,param:d.recordBuf)#1", token.EQL, "global:io.ErrUnexpectedEOF"),
+	}, errIs("R.short", "call:io.ReadFull(param:d.r,param:d.recordBuf)#1", "global:io.ErrUnexpectedEOF"),
 		gate.Cmp("R.not-in-hash", "conv("+tReadN+")", token.LEQ, "param:d.recordSize"))
 	e.gatesBefore("TYPESTATE", rn, noCfg, "validate(full)", func(in ssa.Instruction) bool {
 		c, ok := in.(*ssa.Call)
@@ -118,7 +118,7 @@ func micetypestate(e *Env, why string) {
 	e.gatesBefore("TYPESTATE", rn, noCfg, "validate(empty)", func(in ssa.Instruction) bool {
 		c, ok := in.(*ssa.Call)
 		return ok && prov.CalleeName(&c.Call) == "mice.validateRecord" && prov.Of(c.Call.Args[0]) == "const:nil"
-	}, gate.Cmp("R.eof", "call:io.ReadFull(param:d.r,param:d.recordBuf)#1", token.EQL, "global:io.EOF"),
+	}, errIs("R.eof", "call:io.ReadFull(param:d.r,param:d.recordBuf)#1", "global:io.EOF"),
 		gate.Cmp("R.draft02", "param:d.encoding", token.EQL, `const:"mi-sha256-draft2"`))
 	// every validateRecord call in readNextRecord is one of the three forms, flag constant as required
 	for _, b := range rn.Blocks {
@@ -200,7 +200,7 @@ func micetypestate(e *Env, why string) {
 		ctx.OnlyReturn = r
 		for _, g := range []gate.Gate{
 			gate.CallBool("N.empty-valid", "mice.validateRecord", true, "const:nil", tProof, "const:true"),
-			gate.Cmp("N.empty-eof", "call:binary.Read(param:r,global:binary.BigEndian,local:recordSize)", token.EQL, "global:io.EOF"),
+			errIs("N.empty-eof", "call:binary.Read(param:r,global:binary.BigEndian,local:recordSize)", "global:io.EOF"),
 			gate.Cmp("N.empty-not-draft02", "param:enc", token.NEQ, `const:"mi-sha256-draft2"`),
 		} {
 			ok2, w := ctx.Established(nd, gate.Outcome{Kind: gate.AnyReturn}, g)
@@ -213,7 +213,7 @@ func micetypestate(e *Env, why string) {
 		}
 	}
 	// 7. validateRecord and the digest length
-	e.requireResult("TYPESTATE", vr, gate.Outcome{Kind: gate.AnyReturn}, 0, "call:bytes.Equal(invoke:hash.Hash.Sum(call:sha256.New(),const:nil),param:proof)", "bytes.Equal(SHA-256(record || flag), proof)")
+	e.requireResult("TYPESTATE", vr, gate.Outcome{Kind: gate.AnyReturn}, 0, bytesEqualTerm("invoke:hash.Hash.Sum(call:sha256.New(),const:nil)", "param:proof"), "bytes.Equal(SHA-256(record || flag), proof)")
 	e.requireGates("TYPESTATE", vr, gate.Outcome{Kind: gate.AnyReturn}, noCfg,
 		gate.CallInstr("H.record", "invoke:hash.Hash.Write", "call:sha256.New()", "param:record"))
 	pd := e.fn("signedexchange/mice.(Encoding).parseDigestHeader")
@@ -244,7 +244,9 @@ func fieldOf(fa *ssa.FieldAddr) string {
 func structFieldNames(fa *ssa.FieldAddr) []string {
 	var out []string
 	t := fa.X.Type().Underlying()
-	if p, ok := t.(interface{ Elem() interface{ Underlying() interface{} } }); ok {
+	if p, ok := t.(interface {
+		Elem() interface{ Underlying() interface{} }
+	}); ok {
 		_ = p
 	}
 	// use prov: the rendered address ends with ".<field>"
@@ -262,9 +264,9 @@ func structFieldNames(fa *ssa.FieldAddr) []string {
 // readNextRecord and the proof bytes only by the copy there.
 func whoWritesDecoder(e *Env) {
 	allowed := map[string]bool{
-		"signedexchange/mice.(Encoding).NewDecoder":       true,
-		"signedexchange/mice.(*decoder).Read":             true,
-		"signedexchange/mice.(*decoder).readNextRecord":   true,
+		"signedexchange/mice.(Encoding).NewDecoder":     true,
+		"signedexchange/mice.(*decoder).Read":           true,
+		"signedexchange/mice.(*decoder).readNextRecord": true,
 	}
 	bad := []string{}
 	n := 0
@@ -402,6 +404,11 @@ func flagStoresFrom(ctx *gate.Ctx, fn *ssa.Function, keep func(*ssa.BasicBlock) 
 			}
 			if k, ok := st.Val.(*ssa.Const); ok {
 				set[strings.TrimPrefix(prov.Of(k), "const:")] = true
+			} else if v, ok := ctx.EvalValue(fn, st.Val); ok {
+				// a flag computed before the write (flag := 1; if last { flag = 0 })
+				set[v] = true
+			} else {
+				set["?"] = true
 			}
 		}
 	}
